@@ -235,7 +235,25 @@ def do(op: dict) -> str:
     if o == "shippedtab":
         import importlib
         mod, cls = op["target"].rsplit(".", 1)
-        p = getattr(importlib.import_module(mod), cls)(**op.get("kwargs", {}))
+        PCls = getattr(importlib.import_module(mod), cls)
+        if op.get("config_then_mutate"):
+            # the parameter-sweep idiom: the problem is built from a configuration object, which the caller afterwards changes (and reuses for the
+            # next problem).  The problem already built must keep the parameters it was constructed with.
+            cfg = PCls.Config(**op.get("kwargs", {}))
+            p = PCls(config=cfg)
+            mutated = []
+            for k_, v_ in op["config_then_mutate"].items():
+                try:
+                    setattr(cfg, k_, v_)
+                    mutated.append(k_)
+                except Exception:  # noqa: BLE001  (a frozen configuration cannot be changed: nothing to test for that field)
+                    pass
+            try:
+                PCls(config=cfg)      # the next problem of the sweep
+            except Exception:  # noqa: BLE001
+                pass
+        else:
+            p = PCls(**op.get("kwargs", {}))
         S, A, E = p.state_space, p.action_space, p.random_event_space
 
         def one(s, a, e):
